@@ -77,7 +77,7 @@ Init ==
   /\ retryC = [n \in Node |-> EmptyF] /\ createdC = [n \in Node |-> EmptyF] /\ createC = [n \in Node |-> EmptyF]
   /\ pingC = [n \in Node |-> EmptyF]
   /\ pend = {} /\ net = {}
-  /\ ctr = [msg |-> 0, cid |-> 0, ident |-> 0, eph |-> 0, data |-> 0]
+  /\ ctr = [msg |-> 0, cid |-> 0, ident |-> 0, eph |-> 0, data |-> 0, adv |-> 0]
   /\ now = 0 /\ sweepAt = [n \in Node |-> SweepEvery] /\ pingAt = [n \in Node |-> PingEvery]
   /\ hist = [sent |-> EmptyF, exitLog |-> {}, origLog |-> {}, fwdEarly |-> EmptyF, joined |-> {}]
   /\ budget = [loss |-> 0, dup |-> 0, adv |-> 0]
@@ -651,14 +651,15 @@ MangleAnswer(d, how, newcid) ==
   /\ how \in {"ident", "cid", "eph", "ephauth", "auth", "cands"}
   /\ newcid \in 0..ctr.cid /\ (how = "cid" => newcid # d.cid)
   /\ LET m == d.m
+         ae == 0 - (ctr.adv + 1)        \* a fresh ephemeral key of the attacker (ids <= 0 are the attacker's)
          m2 == CASE how = "ident" -> [m EXCEPT !.ident = @ + 1000]
                  [] how = "cid" -> m
-                 [] how = "eph" -> [m EXCEPT !.eph = 0]
-                 [] how = "ephauth" -> [m EXCEPT !.eph = 0, !.auth = [e1 |-> m.auth.e1, e2 |-> 0]]
-                 [] how = "auth" -> [m EXCEPT !.auth = [e1 |-> m.auth.e1, e2 |-> 0 - 1]]   \* a tag that verifies for no key
+                 [] how = "eph" -> [m EXCEPT !.eph = ae]
+                 [] how = "ephauth" -> [m EXCEPT !.eph = ae, !.auth = [e1 |-> m.auth.e1, e2 |-> ae]]
+                 [] how = "auth" -> [m EXCEPT !.auth = [e1 |-> m.auth.e1, e2 |-> 0 - 1000000]]   \* a tag that verifies for no key
                  [] how = "cands" -> [m EXCEPT !.cands = [k |-> AdvKey, v |-> m.cands.v]]
      IN net' = (net \ {d}) \cup {[d EXCEPT !.m = m2, !.cid = IF how = "cid" THEN newcid ELSE @]}
-  /\ UNCHANGED ctr /\ AdvFrame
+  /\ ctr' = [ctr EXCEPT !.adv = IF how \in {"eph", "ephauth"} THEN @ + 1 ELSE @] /\ AdvFrame
 
 (* ------------------------------------------------- Next ------------------------------------------------- *)
 Deliver(d) == \/ d.dst \notin gone /\ (DropCell(d) \/ RelayCell(d) \/ OnCreate(d) \/ OnCreated(d) \/ OnExtend(d) \/ OnExtended(d)
@@ -759,14 +760,15 @@ NoShadow ==
   \A n \in Node :
      /\ DOMAIN circ[n] \cap DOMAIN exit[n] = {}
      /\ DOMAIN circ[n] \cap DOMAIN relay[n] = {}
-\* the node adjacent to entry (n, cid) - the only one whose destroy may remove it
+\* the nodes adjacent to the entries (n, cid) - the only ones whose destroy may remove them (a relay pair and an exit
+\* entry may share an id: an exit that became a relay, or a create racing the relay's own create)
 Adjacent(n, cid) ==
-  IF Has(relay[n], cid) /\ Has(relay[n], relay[n][cid].to) THEN relay[n][relay[n][cid].to].next
-  ELSE IF Has(exit[n], cid) THEN exit[n][cid].pk
-  ELSE IF Has(circ[n], cid) THEN FirstHopAddr(circ[n][cid]) ELSE None
+  (IF Has(relay[n], cid) /\ Has(relay[n], relay[n][cid].to) THEN {relay[n][relay[n][cid].to].next} ELSE {})
+  \cup (IF Has(exit[n], cid) THEN {exit[n][cid].pk} ELSE {})
+  \cup (IF Has(circ[n], cid) THEN {FirstHopAddr(circ[n][cid])} ELSE {})
 DestroyOnlyFromNeighbour ==
   [][\A d \in net : (d.t = "destroy" /\ d \notin net' /\ d.dst \in Node /\ (pend' # pend \/ circ' # circ)) =>
-        d.signer = Adjacent(d.dst, d.cid)]_vars
+        d.signer \in Adjacent(d.dst, d.cid)]_vars
 \* a cell that no table accepts changes no table
 UnknownCellsInert ==
   [][\A d \in net : (d.t = "cell" /\ d \notin net' /\ d.dst \in Node /\ Cardinality(net \ net') = 1
@@ -774,10 +776,10 @@ UnknownCellsInert ==
         (circ' = circ /\ relay' = relay /\ exit' = exit /\ pend' = pend)]_vars
 
 (* ---- C08 ---- *)
-AdvKnows(k) == (k.e1 = 0 \/ k.e2 = 0) /\ (k.e1 = 0 \/ k.st = Adv)
+AdvKnows(k) == (k.e1 <= 0 \/ k.e2 <= 0) /\ (k.e1 <= 0 \/ k.st = Adv)
 \* a key the originator accepted for a hop is bound to the static identity of the peer it selected, never known to Adv
 NoForeignKey == \A x \in Circs : LET c == circ[x[1]][x[2]] IN
-                  \A i \in DOMAIN c.hops : c.hops[i].key.st = c.hops[i].peer /\ ~AdvKnows(c.hops[i].key) /\ c.hops[i].key.e1 # 0
+                  \A i \in DOMAIN c.hops : c.hops[i].key.st = c.hops[i].peer /\ ~AdvKnows(c.hops[i].key) /\ c.hops[i].key.e1 > 0
 \* without interference both ends of every hop hold the same key: the key the originator derived for a hop is a key the
 \* selected peer installed when it joined (history variable joined), and no other node ever installed it
 KeyAgreement ==
